@@ -310,6 +310,8 @@ type strategy struct {
 	Choices    []int  `json:"choices"`               // index into the sorted parked set, per step
 	Random     int64  `json:"random,omitempty"`      // != 0: choices beyond the prefix are drawn from this seed
 	Burst      bool   `json:"burst,omitempty"`       // random: sometimes release several tasks at once
+	AllAtOnce  bool   `json:"all_at_once,omitempty"` // DFS: add the branch "all parked tasks complete together" at every step
+	Subsets    bool   `json:"subsets,omitempty"`     // DFS: branch over every non-empty subset of the parked tasks completing together
 	CancelAt   int    `json:"cancel_at"`             // step at which cancellation is injected, -1 = never
 	CancelKind string `json:"cancel_kind,omitempty"` // caller | cond
 }
@@ -631,7 +633,7 @@ func runExecution(spec *graphSpec, strat strategy, work string) (res execResult)
 			// let everything go so that the goroutines end
 			x.mu.Unlock()
 			gate{x}.Cancel()
-			sch.Cancel()
+			go sch.Cancel() // clean-up only; must not be able to block the explorer
 			select {
 			case <-done:
 			case <-time.After(5 * time.Second):
@@ -675,13 +677,30 @@ func runExecution(spec *graphSpec, strat strategy, work string) (res execResult)
 		// ---- choose which task completes next
 		var pick []string
 		opt := len(names)
+		if opt > 1 && strat.AllAtOnce {
+			opt++ // one more branch: everything in flight completes at the same time
+		}
+		if strat.Subsets && len(names) <= 5 {
+			opt = 1<<uint(len(names)) - 1 // every non-empty subset of the tasks in flight completes together
+		}
 		choice := 0
 		if step < len(strat.Choices) {
 			choice = strat.Choices[step] % opt
 		} else if rnd != nil {
 			choice = rnd.Intn(opt)
 		}
-		pick = []string{names[choice]}
+		switch {
+		case strat.Subsets && len(names) <= 5:
+			for b, nm := range names {
+				if (choice+1)&(1<<uint(b)) != 0 {
+					pick = append(pick, nm)
+				}
+			}
+		case choice == len(names):
+			pick = append(pick, names...)
+		default:
+			pick = []string{names[choice]}
+		}
 		if rnd != nil && strat.Burst && opt > 1 && rnd.Chance(40) {
 			for _, nm := range names {
 				if nm != names[choice] && rnd.Bool() {
@@ -731,7 +750,7 @@ func runExecution(spec *graphSpec, strat strategy, work string) (res execResult)
 			}
 			x.mu.Unlock()
 			gate{x}.Cancel()
-			sch.Cancel()
+			go sch.Cancel() // clean-up only; must not be able to block the explorer
 			select {
 			case <-done:
 			case <-time.After(5 * time.Second):
@@ -916,6 +935,10 @@ type schedStats struct {
 	confirmed int32
 }
 
+// graphs explored with subset branching (simultaneous completions of any group of tasks)
+var subsetsFor = map[*graphSpec]bool{}
+var subsetsMu sync.Mutex
+
 func specKey(g *graphSpec) string { b, _ := json.Marshal(g); return string(b) }
 
 // explore runs every completion order (DFS) or `orders` random orders of one configuration.
@@ -928,7 +951,10 @@ func explore(a args, st *schedStats, spec *graphSpec, exhaustiveOrders bool, ord
 		if atomic.LoadInt32(&st.confirmed) >= 3 {
 			return
 		}
-		strat := strategy{Choices: prefix, CancelAt: -1}
+		subsetsMu.Lock()
+		sub := subsetsFor[spec]
+		subsetsMu.Unlock()
+		strat := strategy{Choices: prefix, CancelAt: -1, AllAtOnce: exhaustiveOrders, Subsets: exhaustiveOrders && sub}
 		if !exhaustiveOrders {
 			strat.Random = int64(rnd.U64() | 1)
 			strat.Burst = burst
@@ -983,7 +1009,7 @@ func runOne(a args, st *schedStats, spec *graphSpec, strat strategy, key string)
 		}
 	}
 	for _, v := range res.viols {
-		out.Viol(v.prop, v.sig, v.what, map[string]interface{}{"graph": spec, "strategy": strategy{Choices: res.taken, CancelAt: strat.CancelAt, CancelKind: strat.CancelKind, Random: strat.Random, Burst: strat.Burst}, "events": res.events})
+		out.Viol(v.prop, v.sig, v.what, map[string]interface{}{"graph": spec, "strategy": strategy{Choices: res.taken, CancelAt: strat.CancelAt, CancelKind: strat.CancelKind, Random: strat.Random, Burst: strat.Burst, AllAtOnce: strat.AllAtOnce, Subsets: strat.Subsets}, "events": res.events})
 	}
 	out.Count("events", int64(len(res.events)))
 	out.Distinct("interleavings", key+"|"+strings.Join(res.events, " "))
@@ -997,7 +1023,7 @@ func runOne(a args, st *schedStats, spec *graphSpec, strat strategy, key string)
 		st.mu.Unlock()
 		if ok && prev != fin {
 			out.Viol("C02", "outcome-depends-on-completion-order", fmt.Sprintf("same graph and outcomes, different completion order: %q vs %q", prev, fin),
-				map[string]interface{}{"graph": spec, "strategy": strategy{Choices: res.taken, CancelAt: -1}, "events": res.events})
+				map[string]interface{}{"graph": spec, "strategy": strategy{Choices: res.taken, CancelAt: -1, AllAtOnce: strat.AllAtOnce}, "events": res.events})
 		}
 	}
 	// non-triviality per property
@@ -1122,6 +1148,22 @@ func modeSched(a args) {
 				}
 				es, outc, n := es, outc, n
 				add(func() { explore(a, st, mkSpec(n, es, outc, nil), true, 0, nil, false) })
+				if len(es) >= 2 {
+					// the same configuration declared bottom-up, depends_on lists reversed
+					add(func() {
+						g := mkSpec(n, es, outc, nil)
+						for i, j := 0, len(g.Stages)-1; i < j; i, j = i+1, j-1 {
+							g.Stages[i], g.Stages[j] = g.Stages[j], g.Stages[i]
+						}
+						for k := range g.Stages {
+							d := g.Stages[k].Deps
+							for i, j := 0, len(d)-1; i < j; i, j = i+1, j-1 {
+								d[i], d[j] = d[j], d[i]
+							}
+						}
+						explore(a, st, g, true, 0, nil, false)
+					})
+				}
 			}
 		}
 	}
@@ -1152,6 +1194,40 @@ func modeSched(a args) {
 			} else {
 				explore(a, st, g, false, 6, r, true)
 			}
+		})
+	}
+	// 2b. fan-in with bystanders: k parents (any outcomes) -> child, next to an independent chain; every
+	// non-empty subset of the tasks in flight may complete at the same instant
+	nfan := div(a.n(40, 600))
+	for i := 0; i < nfan; i++ {
+		r := h.NewRand(int64(rnd.U64()), "fanin")
+		add(func() {
+			k := r.Range(2, 3)
+			g := &graphSpec{}
+			var parents []string
+			for p := 0; p < k; p++ {
+				nm := fmt.Sprintf("p%d", p)
+				parents = append(parents, nm)
+				g.Stages = append(g.Stages, stageSpec{Name: nm, Outcome: []int{oFail, oFail, oOK, oFailAllow}[r.Intn(4)]})
+			}
+			g.Stages = append(g.Stages, stageSpec{Name: "child", Deps: parents, Outcome: r.Intn(3)})
+			g.Stages = append(g.Stages, stageSpec{Name: "x", Outcome: oOK}, stageSpec{Name: "y", Deps: []string{"x"}, Outcome: r.Intn(2)})
+			if r.Bool() {
+				g.Stages = append(g.Stages, stageSpec{Name: "z", Deps: []string{"y", "child"}[r.Intn(2):][:1], Outcome: oOK})
+			}
+			perm := r.Perm(len(g.Stages))
+			shuffled := make([]stageSpec, len(g.Stages))
+			for i, j := range perm {
+				shuffled[i] = g.Stages[j]
+			}
+			g.Stages = shuffled
+			subsetsMu.Lock()
+			subsetsFor[g] = true
+			subsetsMu.Unlock()
+			explore(a, st, g, true, 0, nil, false)
+			subsetsMu.Lock()
+			delete(subsetsFor, g)
+			subsetsMu.Unlock()
 		})
 	}
 	// 3. cancelled runs (C03): Cancel / condition error at every explorer state of small DAGs
